@@ -10,7 +10,7 @@ import ast
 
 from ..engine import rule
 from ..model import Undecided
-from ..cfg import same, implied, dotted, call_name, is_call, simple_name, unparse, const_value, contains, enclosing
+from ..cfg import same, cexpr, implied, dotted, call_name, is_call, simple_name, unparse, const_value, contains, enclosing
 from ..flow import Canon, Defs, depends
 from ..decide import table, ret_kind
 from ..util import keyword, returns_of, calls_in, inside, order_key
@@ -288,3 +288,53 @@ def c13h(ctx):
     ctx.check(not bad, 'FileCache.store_tile:decode-before-unlink', 'the new image is decoded before the old tile / link is removed (%d unlink sites, %d decoding '
               'sites)' % (len(rms), len(decs)), fn, fail='the old tile (link) is removed before the new image is decoded: a damaged upstream answer '
               'leaves the cache without the tile it had')
+
+
+@rule('C13.i', floor=5)
+def c13i(ctx):
+    """the threshold is the one in force when the tile is needed: a refresh rule of the configuration (`refresh_before`) is handed to
+    the tile manager as it was written and evaluated for every request (TileManager.expire_timestamp) -- `mtime: <file>` follows the
+    file while the server runs, `hours: 1` moves with the clock.  Only the seed / clean-up tools evaluate a rule once, for their own
+    run, and only they set the fixed `_expire_timestamp` of a manager.  A failed refresh does not destroy the old tile on the bulk
+    path either: the tiles of a bulk meta tile carry the "do not cache" mark of their image (shared rule C20.f)"""
+    EVAL_OK = {'mapproxy/cache/tile.py:TileManager.expire_timestamp': 'per request',
+               'mapproxy/seed/config.py:SeedConfiguration.__init__': 'once per seed run', 'mapproxy/seed/config.py:CleanupConfiguration.__init__': 'once per clean-up run'}
+    WRITE_OK = {'mapproxy/cache/tile.py:TileManager.__init__', 'mapproxy/seed/seeder.py:seed_task', 'mapproxy/seed/cleanup.py:tilewalker_cleanup'}
+    n = 0
+    for rel, mod in sorted(ctx.repo.modules.items()):
+        if '/test/' in rel or not rel.startswith('mapproxy/'):
+            continue
+        for fn in ctx.repo.fns_in(rel + ':'):
+            if '#' in fn.qn:
+                continue
+            for x in fn.walk():
+                if isinstance(x, ast.Call) and simple_name(x) == 'before_timestamp_from_options':
+                    n += 1
+                    ctx.check(fn.qn in EVAL_OK, '%s:evaluates-refresh-rule' % fn.short, 'the rule is evaluated %s' % EVAL_OK.get(fn.qn, ''), fn, x,
+                              fail='%s turns a refresh rule into a fixed time stamp outside the request path and the seed tools: the threshold '
+                                   'of a running server no longer follows the rule (mtime of the marker file, the clock)' % fn.short)
+                if isinstance(x, ast.Attribute) and x.attr == '_expire_timestamp' and isinstance(x.ctx, ast.Store):
+                    n += 1
+                    ctx.check(fn.qn in WRITE_OK, '%s:sets-fixed-threshold' % fn.short, 'the fixed threshold is set by the seed / clean-up run (or reset in the constructor)', fn, x,
+                              fail='%s sets the fixed threshold `_expire_timestamp` of a tile manager' % fn.short)
+    if n < 5:
+        raise Undecided('only %d evaluations / writes of the threshold found' % n)
+    ld = ctx.fn('mapproxy/config/loader.py:CacheConfiguration.caches')
+    g = ld.cfg
+    sets = g.find_stmts(lambda s: isinstance(s, ast.Assign) and any(isinstance(t, ast.Attribute) and t.attr == '_refresh_before' for t in s.targets))
+    ok = bool(sets)
+    for nn in sets:
+        st = g.stmt[nn]
+        v = cexpr(st.value)
+        ok = ok and is_call(v, 'get') and contains(v, lambda y: isinstance(y, ast.Constant) and y.value == 'refresh_before')
+        guards = [at.text for at, p in g.guards_of(nn)]
+        ok = ok and not any('refresh_before' in t or "'time'" in t or "'mtime'" in t for t in guards)
+    ctx.check(ok, 'CacheConfiguration.caches:rule-handed-on-unevaluated', 'mgr._refresh_before = <the refresh_before mapping of the cache>, whatever the rule contains', ld,
+              fail='the loader does not hand every refresh rule to the tile manager as written')
+    from ..engine import run_property
+    sub = run_property(ctx.repo, 'C20', ctx.tier, only={'C20.f'})
+    for er in sub.errors:
+        raise Undecided('shared rule %s: %s' % er)
+    for o in sub.obs:
+        (ctx.ok if o.status == 'ok' else ctx.bad)('%s:%s' % (o.rule, o.construct), o.msg, o.where)
+    ctx.stats['functions'] |= sub.stats['functions']
